@@ -86,7 +86,9 @@ func vcLemma_wire_RegistrationRequest_with5GMM(regType uint8, id []byte, cap []b
 	w := GetRegistrationRequest(regType, mi, nil, sc, c5, nil, nil)
 	n := len(id)
 	vc.Assert("size", len(w) == 6+n+3+4)
-	vc.Assert("identity", int(w[4])<<8|int(w[5]) == n)
+	vc.Assert("header", w[0] == 0x7e && w[1] == 0x00 && w[2] == 0x41)
+	vc.Assert("type", w[3] == 0x70|0x08|regType&7)
+	vc.Assert("identity", int(w[4])<<8|int(w[5]) == n && vc.Forall(0, n, func(j int) bool { return w[6+j] == id[j] }))
 	vc.Assert("capability5gmm", w[6+n] == 0x10 && w[7+n] == 1 && w[8+n] == mm)
 	vc.Assert("capability", w[9+n] == 0x2e && w[10+n] == 2 && w[11+n] == cap[0] && w[12+n] == cap[1])
 }
